@@ -95,6 +95,9 @@ def check_rows(case):
     mesh2 = cases.build_mesh2d(dict(nx=nx, ny=ny, lx=lx, ly=ly))
     num2 = dict(name="extrapol2d1") if case["k"] is None else dict(name="extrapol2dk", k=case["k"])
     disc2 = cases.build_disc2d(model2, mesh2, num2, case["flux"], bc)
+    # a second operator on the transposed grid, built with the SAME model object before the first one is evaluated
+    per = {"type": "per"}
+    cases.build_disc2d(model2, cases.build_mesh2d(dict(nx=ny, ny=nx, lx=ly, ly=lx)), num2, case["flux"], dict(left=per, right=per, bottom=per, top=per))
     f2 = cases.build_field(model2, mesh2, cases.cons_from_prim(md2, [rho[idx], V, p[idx]]))
     r2 = disc2.rhs(f2)
     rm, rmom, re_ = np.asarray(r2[0], dtype=float), np.asarray(r2[1], dtype=float), np.asarray(r2[2], dtype=float)
@@ -159,14 +162,25 @@ def _map_bc(bc, mp):
     return out
 
 
-def _residual(g, nx, ny, lx, ly, num, flux, bc, rho, V, p):
+def _operator(g, nx, ny, lx, ly, num, flux, bc, rho, V, p, model=None):
+    """build (not yet evaluate) a 2-D operator; `model` lets two operators share one model object, as user scripts do"""
     md = dict(name="euler2d", gamma=g)
-    model = cases.build_model(md)
+    if model is None:
+        model = cases.build_model(md)
     mesh = cases.build_mesh2d(dict(nx=nx, ny=ny, lx=lx, ly=ly))
     disc = cases.build_disc2d(model, mesh, num, flux, bc)
     f = cases.build_field(model, mesh, cases.cons_from_prim(md, [rho, V, p]))
+    return model, disc, f
+
+
+def _evaluate(disc, f):
     r = disc.rhs(f)
     return np.asarray(r[0], dtype=float), np.asarray(r[1], dtype=float), np.asarray(r[2], dtype=float)
+
+
+def _residual(g, nx, ny, lx, ly, num, flux, bc, rho, V, p):
+    _m, disc, f = _operator(g, nx, ny, lx, ly, num, flux, bc, rho, V, p)
+    return _evaluate(disc, f)
 
 
 def check_sym(case):
@@ -182,9 +196,9 @@ def check_sym(case):
     if (tags["bottom"] == "per") != (tags["top"] == "per"):
         tags["top"] = tags["bottom"]
     bc = {k: _bc2d(g, t, rho, V, p) for k, t in tags.items()}
-    r0 = _residual(g, nx, ny, lx, ly, case["num"], case["flux"], bc, rho, V, p)
-    if not all(np.all(np.isfinite(x)) for x in r0):
-        sim.nonfinite_operator(case["num"])
+    # the original and the mapped problem share ONE model object and both operators are built before either is evaluated
+    # (mesh-dependent data cached on the model or on a class would then leak from one operator into the other)
+    shared, disc0, f0 = _operator(g, nx, ny, lx, ly, case["num"], case["flux"], bc, rho, V, p)
     mp = case["map"]
     grid = lambda a: np.asarray(a, dtype=float).reshape(ny, nx)
     if mp == "transpose":
@@ -192,7 +206,9 @@ def check_sym(case):
         rho2, p2 = T(rho), T(p)
         V2 = np.vstack([T(V[1]), T(V[0])])
         bc2 = dict(left=_map_bc(bc["bottom"], mp), right=_map_bc(bc["top"], mp), bottom=_map_bc(bc["left"], mp), top=_map_bc(bc["right"], mp))
-        r1 = _residual(g, ny, nx, ly, lx, case["num"], case["flux"], bc2, rho2, V2, p2)
+        _m, disc1, f1 = _operator(g, ny, nx, ly, lx, case["num"], case["flux"], bc2, rho2, V2, p2, model=shared)
+        r0 = _evaluate(disc0, f0)
+        r1 = _evaluate(disc1, f1)
         back = lambda a: np.asarray(a, dtype=float).reshape(nx, ny).T.reshape(-1)
         got = (back(r1[0]), np.vstack([back(r1[1][1]), back(r1[1][0])]), back(r1[2]))
     elif mp == "reflect-x":
@@ -200,15 +216,21 @@ def check_sym(case):
         rho2, p2 = T(rho), T(p)
         V2 = np.vstack([-T(V[0]), T(V[1])])
         bc2 = dict(left=_map_bc(bc["right"], mp), right=_map_bc(bc["left"], mp), bottom=_map_bc(bc["bottom"], mp), top=_map_bc(bc["top"], mp))
-        r1 = _residual(g, nx, ny, lx, ly, case["num"], case["flux"], bc2, rho2, V2, p2)
+        _m, disc1, f1 = _operator(g, nx, ny, lx, ly, case["num"], case["flux"], bc2, rho2, V2, p2, model=shared)
+        r0 = _evaluate(disc0, f0)
+        r1 = _evaluate(disc1, f1)
         got = (T(r1[0]), np.vstack([-T(r1[1][0]), T(r1[1][1])]), T(r1[2]))
     else:
         T = lambda a: grid(a)[::-1, :].reshape(-1)
         rho2, p2 = T(rho), T(p)
         V2 = np.vstack([T(V[0]), -T(V[1])])
         bc2 = dict(left=_map_bc(bc["left"], mp), right=_map_bc(bc["right"], mp), bottom=_map_bc(bc["top"], mp), top=_map_bc(bc["bottom"], mp))
-        r1 = _residual(g, nx, ny, lx, ly, case["num"], case["flux"], bc2, rho2, V2, p2)
+        _m, disc1, f1 = _operator(g, nx, ny, lx, ly, case["num"], case["flux"], bc2, rho2, V2, p2, model=shared)
+        r0 = _evaluate(disc0, f0)
+        r1 = _evaluate(disc1, f1)
         got = (T(r1[0]), np.vstack([T(r1[1][0]), -T(r1[1][1])]), T(r1[2]))
+    if not all(np.all(np.isfinite(x)) for x in r0):
+        sim.nonfinite_operator(case["num"])
     c = np.sqrt(g * p / rho)
     a = float(np.max(np.sqrt(V[0] ** 2 + V[1] ** 2) + c))
     # boundary states (dirichlet / inlets) may be larger than the data: widen the scale by the largest residual
